@@ -85,22 +85,7 @@ example : bitChunks [0xA5, 0x3C, 0xFF] 20 3 21 = [(5, 5), (0x3C, 8), (0x1F, 5)] 
 
 /-! ### decode tables as a lookup semantics -/
 
-/-- the table index for the next (up to) 8 bits: zero-padded on the right -/
-def idx8 (b : List Bool) : Nat := ofBits ((b ++ List.replicate 8 false).take 8)
-
-/-- walk the nested tables byte by byte: `some (s, l)` = symbol `s` whose code word is the first `l` bits.
-Strict: leaf entries must consume 1..8 bits. `n` bounds the nesting depth. -/
-def walk : Nat → Array Decode → List Bool → Option (Nat × Nat)
-  | 0, _, _ => none
-  | n + 1, m, b =>
-    match m[idx8 b]! with
-    | .void => none
-    | .symbol s l => if 1 ≤ l ∧ l ≤ 8 then some (s, l) else none
-    | .further t => (walk n t (b.drop 8)).map fun p => (p.1, p.2 + 8)
-
-/-- `c.decode` decodes every code word of `c.encode` (followed by anything) to its symbol and length -/
-def TableOK (c : Code) : Prop :=
-  ∀ s l code, c.lookup s = some (l, code) → ∀ tail, walk 9 c.decode (bitsOfCode l code ++ tail) = some (s, l)
+/-! `idx8`, `walk`, `TableOK`: defined in Model/HuffSpec.lean -/
 
 theorem walk_pos {n : Nat} {m : Array Decode} {b : List Bool} {s l : Nat} (h : walk n m b = some (s, l)) : 1 ≤ l := by
   induction n generalizing m b l with
